@@ -9,7 +9,7 @@
 (*   {ev:"new", obj:"pt"|"pl"|"rc", <constructor arguments>, obs, priv}    *)
 (*   {ev:"op",  op:{op:<name>, ...}, err:<the call raised>, obs, priv}     *)
 (*   {ev:"grid", n, nc, tr, nrows, items, missing, figsize, payload, data} *)
-(*   {ev:"comb", lists, keys, values, items}                               *)
+(*   {ev:"comb", lists, snap, keys, values, items} ... (one per reading)    *)
 (*                                                                         *)
 (* obs  = what the PUBLIC accessors returned after the call (any subset of *)
 (*        the fields of the ..._Obs records of Helpers.tla);               *)
@@ -149,15 +149,16 @@ TGrid ==
         ELSE Reject("grid", [clause |-> IF v # "ok" THEN v ELSE pay])
   /\ UNCHANGED <<obj, m, i, judged, via, tags>>
 
+\* one event per reading of a DataCombination: lists = the caller's lists at that moment, snap = at construction
 TComb ==
-  /\ Consume("comb") /\ ln = 1
-  /\ LET v == CombI_Verdict(Ev.lists, Ev.items)
-         al == IF /\ Ev.keys = [j \in 1..Len(Ev.items) |-> Ev.items[j][1]]
-                  /\ Ev.values = [j \in 1..Len(Ev.items) |-> Ev.items[j][2]] THEN "ok" ELSE "aligned"   \* keys(), values(), items() agree
+  /\ Consume("comb")
+  /\ LET out == [keys |-> Ev.keys, values |-> Ev.values, items |-> Ev.items]
+         v == CombI_VerdictAll(Ev.lists, out)
+         vs == CombI_VerdictAll(Ev.snap, out)
      IN IF Ev.raised THEN Reject("comb", [clause |-> "raised"])
-        ELSE IF v = "ok" /\ al = "ok"
-        THEN mok' = (Ev.items = CombM_Items(Ev.lists) /\ Ev.keys = CombM_Keys(Ev.lists) /\ Ev.values = CombM_Values(Ev.lists))
-        ELSE Reject("comb", [clause |-> IF v # "ok" THEN v ELSE al])
+        ELSE IF v = "ok" \/ vs = "ok"                                        \* the product of ONE state of the lists, all three aligned
+        THEN mok' = (mok /\ out = CombOut(Ev.lists))
+        ELSE Reject("comb", [clause |-> v])
   /\ UNCHANGED <<obj, m, i, judged, via, tags>>
 
 TNext == TChoose \/ TNew \/ TOp \/ TGrid \/ TComb
